@@ -173,4 +173,11 @@ TEXTS = {
                     "Detects gross law errors (factors, axes, sills, signs), not subtle distributional defects."),
         level_note=("Trusted: the Gaussian fourth-moment formula for sigma_MC, boost::math CDFs, rapidcheck; thresholds derived (not tuned) and validated over seeds on "
                     "the unchanged tree. Runs are deterministic functions of VERIF_SEED.")),
+    "C17": dict(
+        engine="rapidcheck",
+        technique="property-based testing (rapidcheck): generated experimental variograms / maps, structure lists, constraints and options; oracle = validity predicate on the returned model (PSD sills, positive finite ranges, every constraint and option honoured, save/reload, usable for kriging, termination)",
+        design_ref="DESIGN.md §5 C17",
+        level_text=("Exploration: ~2 500 (quick) to 51 000 (thorough) generated fits over three entry points; whenever a fit reports success the returned model must "
+                    "satisfy the validity predicate. Many outputs are admissible, so a predicate (not one expected model) is checked."),
+        level_note=("Trusted: the harness's Jacobi eigenvalues and its reading of which parameters each option infers (from the code), rapidcheck. <= 12 lags, <= 3 structures, maxiter <= 100.")),
 }
